@@ -608,6 +608,43 @@ func factsWeb(o *out, ps pkgs) {
 		}
 	}
 	o.def("converterHandlerLockShape", "Int × Int", "("+strconv.Itoa(firstLock)+", "+strconv.Itoa(deferUnlock)+")")
+	// indices of the top-level statements of converterHandler that touch process-global state:
+	// assignments to package-level variables and the delegation to the output-specific handlers
+	var touching []string
+	for i, st := range ch.Body.List {
+		touches := false
+		ast.Inspect(st, func(n ast.Node) bool {
+			switch x := n.(type) {
+			case *ast.CallExpr:
+				f := exprStr(x.Fun)
+				if f == "handleTabularOutput" || f == "handleVisualOutput" || strings.HasPrefix(f, "tabular.Set") || strings.HasPrefix(f, "tree.Set") || f == "helper.SaveOutputToFile" {
+					touches = true
+				}
+			case *ast.AssignStmt:
+				for _, l := range x.Lhs {
+					if id, ok := l.(*ast.Ident); ok {
+						if obj := p.TypesInfo.ObjectOf(id); obj != nil {
+							if v, ok := obj.(*types.Var); ok && v.Parent() == p.Types.Scope() {
+								touches = true
+							}
+						}
+					}
+					if sel, ok := l.(*ast.SelectorExpr); ok {
+						if obj := p.TypesInfo.ObjectOf(sel.Sel); obj != nil {
+							if v, ok := obj.(*types.Var); ok && v.Pkg() != nil && v.Parent() == v.Pkg().Scope() {
+								touches = true
+							}
+						}
+					}
+				}
+			}
+			return true
+		})
+		if touches {
+			touching = append(touching, strconv.Itoa(i))
+		}
+	}
+	o.def("converterHandlerGlobalStmts", "List Int", "["+strings.Join(touching, ", ")+"]")
 }
 
 // ---- global variable read/write sets (SSA) ---------------------------------------------------
